@@ -170,7 +170,7 @@ def run(R):
         for n, c in kit.call_sites(m, lambda c: q.attr_call(c)[1] == hook and isinstance(q.attr_call(c)[0], ast.Name) and q.attr_call(c)[0].id != "self"):
             trys = kit.enclosing_try_handlers(c)
             inside = [t for t in trys if any(t is sub for sub in ast.walk(lp))]
-            cov = [h for t in inside[:1] for h in t.handlers if kit.handler_covers(h, "Exception", hier)]
+            cov = [h for t in inside[:1] for h in t.handlers if kit.handler_covers(h, "BaseException", hier)]
             R.check(bool(cov), "C06.HOOK-ALL", m.qualname + ":isolated", R.site(m, c),
                     "each ctx.%s() runs in its own handler (covering Exception) inside the loop: one failing context does not stop the others" % hook,
                     "ctx.%s() is not individually guarded inside the loop: the first failing %s() skips the remaining contexts, which are later "
@@ -272,6 +272,70 @@ def run(R):
     R.require_min("C06.FIELDS", 2)
 
 
+def contexts_active_flag(R):
+    """Name of the AsyncTask field that says whether the task's contexts are currently resumed: the flag _pause_contexts
+    tests first and clears, and _resume_contexts sets."""
+    at = R.repo.cls("async_task.AsyncTask")
+    pc, rc = at.methods.get("_pause_contexts"), at.methods.get("_resume_contexts")
+    R.need(pc is not None and rc is not None, "anchor vanished: AsyncTask._pause_contexts/_resume_contexts")
+    off = set(q.src(t)[5:] for n in q.scope_nodes(pc.node) if isinstance(n, ast.Assign) and isinstance(n.value, ast.Constant) and n.value.value is False
+              for t in n.targets if q.src(t).startswith("self."))
+    on = set(q.src(t)[5:] for n in q.scope_nodes(rc.node) if isinstance(n, ast.Assign) and isinstance(n.value, ast.Constant) and n.value.value is True
+             for t in n.targets if q.src(t).startswith("self."))
+    both = off & on
+    R.need(len(both) == 1, "role: the flag recording whether a task's contexts are resumed was not found (%s)" % sorted(both))
+    return both.pop()
+
+
+def pause_typestate(R, P):
+    """pause() and resume() of a registered context strictly alternate.  The scheduler-driven loops are guarded by the task's
+    flag; the remaining pause() - the one __exit__ issues - must not run when the flag says the contexts are already paused,
+    which is the state a suspended task is in when its generator is finalised from outside (a computation that was abandoned
+    after an error, then garbage collected)."""
+    flag = contexts_active_flag(R)
+    AC = R.repo.cls("contexts.AsyncContext")
+    ex = AC.methods.get("__exit__")
+    cfg = cfg_of(ex)
+    pauses = [n for n, c in _calls_on_self(ex, "pause")]
+
+    def resumed(nd):
+        if nd.kind != "test":
+            return None
+        k, s, pos = q.atom_test(nd.ast)
+        if k == "call" and s == "is_asyncio_mode":
+            return "T" if pos else "F"           # asyncio mode: no scheduler, no suspension
+        if k == "isnone" and isinstance(s, str) and ("active_task" in s or s.endswith("_task")):
+            return "T" if pos else "F"           # not registered with any task
+        if k == "truth" and isinstance(s, str) and s.endswith("." + flag):
+            return "T" if pos else "F"
+        return None
+    if pauses:
+        p = kit.path_avoiding_guard(cfg, pauses, resumed, N)
+        R.check(p is None, P + ".PAUSE-TYPESTATE", ex.qualname, R.site(ex),
+                "__exit__ pauses the context only when its task's contexts are resumed (or it belongs to no task)",
+                "__exit__ calls pause() without consulting the task's %s flag: when the block is left because the generator of a suspended task is finalised "
+                "(an abandoned computation being garbage collected), the context is paused a second time and writes stale saved state back - "
+                "a scoped override of a failed computation comes back after it ended" % flag, cfg.fmt_path(p) if p else None)
+    # the two scheduler-driven loops are guarded by the same flag
+    at = R.repo.cls("async_task.AsyncTask")
+    for mname, hook, want in (("_pause_contexts", "pause", True), ("_resume_contexts", "resume", False)):
+        m = at.methods[mname]
+        mcfg = cfg_of(m)
+        hooks = [n for n, c in kit.call_sites(m, lambda c: q.attr_call(c)[1] == hook and isinstance(q.attr_call(c)[0], ast.Name) and q.attr_call(c)[0].id != "self")]
+
+        def g(nd, want=want):
+            if nd.kind != "test":
+                return None
+            k, s, pos = q.atom_test(nd.ast)
+            if k == "truth" and s == "self." + flag:
+                return ("T" if pos else "F") if want else ("F" if pos else "T")
+            return None
+        if hooks:
+            p = kit.path_avoiding_guard(mcfg, hooks, g, N)
+            R.check(p is None, P + ".PAUSE-TYPESTATE", m.qualname, R.site(m), "%s() hooks run only when the flag says the contexts are %s" % (hook, "resumed" if want else "paused"),
+                    "%s() hooks can run although the contexts are already %sd" % (hook, hook), mcfg.fmt_path(p) if p else None)
+
+
 def enter_exit_rules(R, P):
     repo = R.repo
     AC = repo.cls("contexts.AsyncContext")
@@ -284,7 +348,19 @@ def enter_exit_rules(R, P):
             cfg = cfg_of(m)
             if hook:
                 sites = [n for n, c in _calls_on_self(m, hook)]
-                p = cfg.find_path([cfg.entry], [cfg.exit], N, cut_nodes=sites)
+                flag = contexts_active_flag(R)
+
+                def already_paused(nd, flag=flag):
+                    # the one legitimate way to leave the block without pause(): the owning task is suspended, i.e. the scheduler
+                    # has paused its contexts already (<task>.<flag> is false)
+                    if nd.kind != "test" or hook != "pause":
+                        return None
+                    k_, s_, pos_ = q.atom_test(nd.ast)
+                    if k_ == "truth" and isinstance(s_, str) and s_.endswith("." + flag) and not s_.startswith("self."):
+                        return "F" if pos_ else "T"
+                    return None
+                p = cfg.find_path([cfg.entry], [cfg.exit], N, cut_nodes=sites,
+                                  keep_edge=lambda e, cfg=cfg: not (already_paused(cfg.nodes[e.src]) is not None and e.label == already_paused(cfg.nodes[e.src])))
                 R.check(p is None and sites, P + ".ENTER-EXIT", "%s:%s" % (m.qualname, hook), R.site(m),
                         "%s calls self.%s() on every path" % (m.name, hook),
                         "%s can return without calling self.%s(): %s" % (m.name, hook,
@@ -327,6 +403,9 @@ def enter_exit_rules(R, P):
                     "outside asyncio mode %s calls %s(self, ...) on every path" % (m.name, reg),
                     "outside asyncio mode %s can skip %s(self): the scheduler does not know about the context (no pause when the task is suspended) "
                     "or keeps pausing a context that was left" % (m.name, reg), cfg.fmt_path(p) if p else None)
+    pause_typestate(R, P)
+    from ..roles import Roles as _Roles
+    common.unwind_pauses(R, _Roles(R), P + ".UNWIND-PAUSE")
     # __exit__ unregisters before it pauses: if pause() raises, the context is nevertheless no longer known to the task
     ex = AC.methods.get("__exit__")
     cfg = cfg_of(ex)
